@@ -94,12 +94,39 @@ func (p *Pset) ToBase64() (string, error) {
 	return base64.StdEncoding.EncodeToString(buf), nil
 }
 
+// Copy returns a packet whose global section, input list and output list can
+// be changed without affecting p: role operations stage their changes on a copy
+// and publish it only when every step succeeded.
 func (p *Pset) Copy() *Pset {
-	return &Pset{
-		Global:  p.Global,
-		Inputs:  p.Inputs,
-		Outputs: p.Outputs,
+	global := p.Global
+	if p.Global.Scalars != nil {
+		global.Scalars = append([][]byte{}, p.Global.Scalars...)
 	}
+	var inputs []Input
+	if p.Inputs != nil {
+		inputs = append([]Input{}, p.Inputs...)
+	}
+	var outputs []Output
+	if p.Outputs != nil {
+		outputs = append([]Output{}, p.Outputs...)
+	}
+	return &Pset{
+		Global:  global,
+		Inputs:  inputs,
+		Outputs: outputs,
+	}
+}
+
+// publish replaces the content of p with the staged packet, provided the staged
+// packet is sane; on error p is left untouched.
+func (p *Pset) publish(staged *Pset) error {
+	if err := staged.SanityCheck(); err != nil {
+		return err
+	}
+	p.Global = staged.Global
+	p.Inputs = staged.Inputs
+	p.Outputs = staged.Outputs
+	return nil
 }
 
 func (p *Pset) InputsModifiable() bool {
